@@ -628,6 +628,15 @@ func buildSpecs() []Spec {
 	}
 	// fillnull without a field list: two passes
 	add(Spec{Family: "fillnull", SPL: "fillnull value=0", Kind: "fillnull", Doc: docFillnullAll("0")})
+	// bin without span=: two passes (first pass: min/max of the numeric values of the WHOLE input, Rewind derives the span).
+	// Tables "mixed": runs of non-numeric / null values in front of the extreme values (seed C06d).
+	for _, q := range []string{"bin v", "bin bins=3 v", "bin bins=100 v | fields id, v", "bin minspan=2 v", "bin v | stats count by v"} {
+		sp := Spec{Family: "binauto", SPL: q, Tables: "mixed"}
+		if strings.Contains(q, "stats") {
+			sp.Cmp = cmpMultiset
+		}
+		add(sp)
+	}
 	// sort (unique keys -> fully determined order)
 	add(Spec{Family: "sort", SPL: "sort v, id"})
 	add(Spec{Family: "sort", SPL: "sort -v, id | head 3"})
@@ -765,6 +774,23 @@ func genTable(r *vhlib.Rng, kind string, n int) *Table {
 		}
 		row[6] = Cell{K: 's', S: fmt.Sprintf("k%d=w%d u%d", r.Intn(4), r.Intn(3), i)}
 		t.Rows = append(t.Rows, row)
+	}
+	if kind == "mixed" && n >= 3 {
+		// v: small numbers, then a run of 5..9 non-numeric / null cells, then the values that decide min and max
+		run := 5 + r.Intn(5)
+		start := r.Intn(max(1, n-run-1))
+		for i := start; i < start+run && i < n-1; i++ {
+			if r.Chance(30) {
+				t.Rows[i][5] = Cell{}
+			} else {
+				t.Rows[i][5] = Cell{K: 's', S: vhlib.Pick(r, []string{"n/a", "-", "err", "x1"})}
+			}
+		}
+		hi := min(n-1, start+run+r.Intn(3))
+		t.Rows[hi][5] = Cell{K: 'i', I: int64(500 + r.Intn(1000))}
+		if r.Chance(50) && hi+1 < n {
+			t.Rows[hi+1][5] = Cell{K: 'i', I: -int64(200 + r.Intn(300))}
+		}
 	}
 	return t
 }
@@ -961,7 +987,7 @@ func main() {
 	}
 	specs := buildSpecs()
 	// tables per kind
-	kinds := []string{"", "distinct", "num", "xy"}
+	kinds := []string{"", "distinct", "num", "xy", "mixed"}
 	tables := map[string][]*Table{}
 	for _, k := range kinds {
 		tr := rng.Fork()
@@ -982,6 +1008,9 @@ func main() {
 			}
 			if k != "" && k != "xy" && i >= (nTables+1)/2 {
 				break
+			}
+			if k == "mixed" && i >= 2 {
+				n = 10 + tr.Intn(30)
 			}
 			t := genTable(tr, k, n)
 			if k == "num" && i == 2 {
@@ -1008,6 +1037,8 @@ func main() {
 		switch fam {
 		case "where", "eval", "fields", "rename", "rex", "regex", "bin", "makemv", "mvexpand":
 			key = "rowwise"
+		case "binauto":
+			key = "fillnull"
 		case "top", "rare", "stats":
 			key = "agg"
 		case "dedupxy":
